@@ -113,15 +113,11 @@ pub fn observe(m: &LruManager, md: &Model) {
     assert!(m.len() <= md.cap, "more entries than the capacity");
     assert!(m.is_empty() == (md.n == 0), "is_empty differs from the textbook LRU");
     assert!(m.capacity() as usize == md.cap, "capacity changed");
-    // key set: every key of the model is present; together with len == n (distinct model keys) this
-    // gives set equality, i.e. `contains` is false for every other key
-    let mut i = 0;
-    while i < MAXC {
-        if i < md.n {
-            assert!(m.contains(&ALPHA[md.ord[i]]), "contains: a key of the textbook LRU is missing");
-        }
-        i += 1;
-    }
+    // key set: not probed key by key here (each probe is a map search).  It follows from the checks
+    // below: the invariant hook gives "list nodes == key_map entries, key_map[key] == slot" (so the
+    // map's key set is the list's key set, all distinct), the order check gives "non-zero list keys ==
+    // non-zero model keys", and len == n leaves room for the all-zero key only where the model has it.
+    // `contains` itself is exercised on the operated key in step_touch / step_remove.
     // recency order: for_each_entry walks least-recent -> most-recent
     let mut seen = [NONE; MAXC + 1];
     let mut cnt = 0usize;
@@ -173,6 +169,7 @@ pub fn step_touch(m: &mut LruManager, md: &mut Model, k: usize) {
     let r = m.touch(&key);
     md.touch(k);
     assert!(r, "touch with capacity >= 1 must return true");
+    assert!(m.contains(&key), "touched key must be present");
     observe(m, md);
 }
 pub fn step_remove(m: &mut LruManager, md: &mut Model, k: usize) {
